@@ -95,9 +95,50 @@ const MOD_FLAGS: [(KeyMod, u64); 9] = [
     (KeyMod::PRESS, 256),
 ];
 
-/// the (private) bits of a `KeyMod`, read through `contains`
-pub fn mod_bits(m: KeyMod) -> u64 {
+/// Bytes the derived `Hash` implementation of a value feeds to the hasher: for a struct with one private integer
+/// field this is that field as stored, read without any accessor, conversion or comparison of the crate.
+fn hashed_bytes<T: std::hash::Hash>(v: &T) -> Vec<u8> {
+    use std::hash::Hasher;
+    struct Grab(Vec<u8>);
+    impl Hasher for Grab {
+        fn finish(&self) -> u64 {
+            0
+        }
+        fn write(&mut self, bytes: &[u8]) {
+            self.0.extend_from_slice(bytes);
+        }
+    }
+    let mut g = Grab(Vec::new());
+    v.hash(&mut g);
+    g.0
+}
+
+fn le_word(bytes: &[u8]) -> u64 {
+    let mut v: u64 = 0;
+    for (i, b) in bytes.iter().take(8).enumerate() {
+        let shift = if cfg!(target_endian = "big") { 8 * (bytes.len().min(8) - 1 - i) } else { 8 * i };
+        v |= (*b as u64) << shift;
+    }
+    v
+}
+
+/// the modifier word of a `KeyMod` as the accessors report it (`contains` flag by flag)
+pub fn mod_bits_by_accessors(m: KeyMod) -> u64 {
     MOD_FLAGS.iter().filter(|(f, _)| m.contains(*f)).map(|(_, b)| *b).sum()
+}
+
+/// The (private) modifier word of a `KeyMod` AS STORED (`bits: u32`, through the derived `Hash`), not through
+/// `contains` / `from_bits` / `Debug`: shift 1, alt 2, ctrl 4, super 8, hyper 16, meta 32, capslock 64,
+/// numlock 128, press 256.
+pub fn mod_bits(m: KeyMod) -> u64 {
+    le_word(&hashed_bytes(&m))
+}
+
+/// `!accessors=<n>` when `KeyMod::contains` disagrees with the stored word (appended to the canonical text so
+/// that the disagreement shows as a mismatch), else empty
+fn mod_check(m: KeyMod) -> String {
+    let (raw, acc) = (mod_bits(m), mod_bits_by_accessors(m));
+    if raw == acc { String::new() } else { format!("!accessors={acc}") }
 }
 
 pub fn mod_of_bits(bits: u64) -> KeyMod {
@@ -120,8 +161,16 @@ const UNDERS: [UnderlineStyle; 6] = [
     UnderlineStyle::Dotted,
     UnderlineStyle::Dashed,
 ];
+/// number of an underline style by the NAME of the variant (no `PartialEq`, no `as`)
 pub fn under_num(u: UnderlineStyle) -> usize {
-    UNDERS.iter().position(|x| *x == u).unwrap()
+    match u {
+        UnderlineStyle::None => 0,
+        UnderlineStyle::Straight => 1,
+        UnderlineStyle::Double => 2,
+        UnderlineStyle::Curly => 3,
+        UnderlineStyle::Dotted => 4,
+        UnderlineStyle::Dashed => 5,
+    }
 }
 pub fn under_of_num(n: usize) -> UnderlineStyle {
     UNDERS[n % 6]
@@ -161,19 +210,43 @@ pub fn show_fmod(m: &FaceModify) -> String {
     )
 }
 
+/// the attribute word of a `FaceAttrs` AS STORED (`bits: u16`, through the derived `Hash`)
+pub fn face_attr_bits(a: FaceAttrs) -> u64 {
+    le_word(&hashed_bytes(&a))
+}
+
+/// Independent layout table of the attribute word (src/face.rs): bits 0..2 underline style (0 none, 1 straight,
+/// 2 double, 3 curly, 4 dotted, 5 dashed), then bold 8, italic 16, blink 32, reverse 64, strike 128.
 pub fn show_face(f: &Face) -> String {
     let a = f.attrs;
-    format!(
-        "face:{}/{}/{}/{}{}{}{}{}",
-        rgba_tok(f.fg),
-        rgba_tok(f.bg),
+    let w = face_attr_bits(a);
+    let stored = format!(
+        "{}/{}{}{}{}{}",
+        w & 7,
+        bit(w & 8 != 0),
+        bit(w & 16 != 0),
+        bit(w & 32 != 0),
+        bit(w & 64 != 0),
+        bit(w & 128 != 0)
+    );
+    // the same through the crate's accessors: a disagreement (or a bit outside the layout) is made visible
+    let by_accessors = format!(
+        "{}/{}{}{}{}{}",
         under_num(a.underline()),
         bit(a.contains(FaceAttrs::BOLD)),
         bit(a.contains(FaceAttrs::ITALIC)),
         bit(a.contains(FaceAttrs::BLINK)),
         bit(a.contains(FaceAttrs::REVERSE)),
         bit(a.contains(FaceAttrs::STRIKE))
-    )
+    );
+    let note = if stored != by_accessors {
+        format!("!accessors={by_accessors}")
+    } else if w >> 8 != 0 || w & 7 > 5 {
+        format!("!word={w}")
+    } else {
+        String::new()
+    };
+    format!("face:{}/{}/{}{}", rgba_tok(f.fg), rgba_tok(f.bg), stored, note)
 }
 
 /// DEC private mode number of a mode, by the NAME of the variant (not by its discriminant: a wrong
@@ -223,11 +296,11 @@ pub fn show_event(e: &TerminalEvent) -> String {
     match e {
         TerminalEvent::Key(k) => {
             let (v, p) = key_name_variant(k.name);
-            format!("key:{v}.{p}.{}", mod_bits(k.mode))
+            format!("key:{v}.{p}.{}{}", mod_bits(k.mode), mod_check(k.mode))
         }
         TerminalEvent::Mouse(m) => {
             let (v, p) = key_name_variant(m.name);
-            format!("mouse:{v}.{p}.{}@{},{}", mod_bits(m.mode), m.pos.row, m.pos.col)
+            format!("mouse:{v}.{p}.{}{}@{},{}", mod_bits(m.mode), mod_check(m.mode), m.pos.row, m.pos.col)
         }
         TerminalEvent::CursorPosition(p) => format!("cpr:{},{}", p.row, p.col),
         TerminalEvent::Size(s) => {
